@@ -604,6 +604,55 @@ async fn test_multipart_replaces_object() -> Result<()> {
 
 #[tokio::test]
 #[tracing::instrument]
+async fn test_list_parts_order() -> Result<()> {
+    let _guard = serial().await;
+
+    let c = Client::new(config());
+
+    let bucket = format!("test-list-parts-{}", Uuid::new_v4());
+    let bucket = bucket.as_str();
+    create_bucket(&c, bucket).await?;
+
+    let key = "sample.txt";
+    let ans = c.create_multipart_upload().bucket(bucket).key(key).send().await?;
+    let upload_id = ans.upload_id.unwrap();
+    let upload_id = upload_id.as_str();
+
+    // parts uploaded in no particular order ...
+    let part_numbers = [7, 12, 3, 10, 1, 9, 4, 11, 2, 8, 5, 6];
+    for part_number in part_numbers {
+        c.upload_part()
+            .bucket(bucket)
+            .key(key)
+            .upload_id(upload_id)
+            .body(ByteStream::from_static(b"part"))
+            .part_number(part_number)
+            .send()
+            .await?;
+    }
+
+    // ... are listed in ascending order of their part number
+    {
+        let ans = c.list_parts().bucket(bucket).key(key).upload_id(upload_id).send().await?;
+        let listed: Vec<i32> = ans.parts().iter().filter_map(|p| p.part_number()).collect();
+        assert_eq!(listed, (1..=12).collect::<Vec<i32>>());
+    }
+
+    {
+        c.abort_multipart_upload()
+            .bucket(bucket)
+            .key(key)
+            .upload_id(upload_id)
+            .send()
+            .await?;
+        delete_bucket(&c, bucket).await?;
+    }
+
+    Ok(())
+}
+
+#[tokio::test]
+#[tracing::instrument]
 async fn test_multipart_unknown_upload() -> Result<()> {
     use aws_sdk_s3::error::ProvideErrorMetadata;
 
